@@ -1,34 +1,15 @@
 /-
-  C17: tie to the source TEXT.  The definitions `Generated.src_*` of Generated/ExprsStats.lean are re-translated
+  C17: tie to the source TEXT, cnvlib/bintest.py (z_prob).  The definitions `Generated.src_*` of Generated/ExprsStats.lean are re-translated
   from /repo's Python on every run (harness/exprtrans.py, `emit_values`); these theorems state that the hand-written
   model formulas of Model/Stats.lean are those expressions.  Kept in a module of their own so that an edit to a
   formula breaks exactly these obligations.
 -/
 import CnvVerif.Props.C17
-import CnvVerif.Lemmas.SrcStats
+import CnvVerif.Lemmas.SrcStatsZ
 import Mathlib.Tactic.NormNum
 import Mathlib.Tactic.Positivity
 namespace CnvVerif.C17
 open CnvVerif CnvVerif.Stats CnvVerif.Generated
-
-/-- the prediction interval's percentile levels ARE the two levels `make_pi_func` hands to `np.percentile` -/
-theorem pi_levels_are_the_source (l : List Rat) (alpha : Rat) :
-    piFunc l alpha = (percentile l (src_pi_pct_lo alpha), percentile l (src_pi_pct_hi alpha)) :=
-  Src.piFunc_is_source l alpha
-
-/-- the bootstrap interval's percentile levels ARE the ones `confidence_interval_bootstrap` computes from
-    `alphas = [alpha/2, 1 − alpha/2]` (the BCa correction is commented out in the source and absent here) -/
-theorem ci_levels_are_the_source (vals wts : List Rat) (alpha : Rat) (boot : List BootRow) :
-    ciBoot vals wts alpha boot =
-      if vals.length < 2 then (vals.getD 0 0, vals.getD 0 0)
-      else (percentile (boot.map (replicateMean vals wts)) (src_ci_pct_lo alpha),
-            percentile (boot.map (replicateMean vals wts)) (src_ci_pct_hi alpha)) :=
-  Src.ciBoot_is_source vals wts alpha boot
-
-/-- the number of replicates IS `bootstraps`, raised to `ceil(2/alpha)` exactly when the source does so -/
-theorem bootstrap_count_is_the_source (b : Nat) (alpha : Rat) (h0 : 0 < alpha) :
-    ((bootCount b (2 / alpha) : Nat) : Rat) = src_ci_bootstraps alpha (b : Rat) :=
-  Src.bootCount_is_source b alpha h0
 
 /-- the raw bin probability IS the expression `z_prob` computes before the adjustment, for every normal cdf and
     every function that is a square root at `1 − weight`; `tail` is the two-sided tail as a function of `z²` -/
@@ -37,10 +18,6 @@ theorem z_prob_is_the_source (tail cdf sqrt : Rat → Rat) (resid w : Rat)
     (hsq : sqrt (1 - w) * sqrt (1 - w) = 1 - w) (hw : w ≠ 1) :
     pRaw tail resid w = src_z_prob cdf sqrt resid w :=
   Src.pRaw_is_source tail cdf sqrt resid w htail hsq hw
-
-/-- the model's mean squared error IS what `descriptives.mean_squared_error` returns without `initial` -/
-theorem mse_is_the_source (a : List Rat) : mseBody a = src_mean_squared_error a :=
-  Src.mseBody_is_source a
 
 /-! non-vacuity of the hypotheses of `z_prob_is_the_source`: weight 3/4 with `sqrt (1/4) = 1/2`, and a
     (non-constant, even) function in the role of the cdf together with the tail it induces on squares -/
